@@ -57,10 +57,17 @@ impl<V> SMap<V> {
     #[verifier::external_body]
     pub fn set_index(&mut self, i: usize, v: V) requires old(self).wf(), i < old(self).keys().len()
         ensures final(self).wf(), final(self).keys() == old(self).keys(), final(self).map() == old(self).map().insert(old(self).keys()[i as int], v) { unimplemented!() }
+    // R53: removal by position (order of the rest kept), used by the position-loop form of `retain`
+    #[verifier::external_body]
+    pub fn shift_remove_index(&mut self, i: usize) requires old(self).wf(), i < old(self).keys().len()
+        ensures final(self).wf(), final(self).keys() == old(self).keys().remove(i as int), final(self).map() == old(self).map().remove(old(self).keys()[i as int]) { unimplemented!() }
     #[verifier::external_body]
     pub fn shift_remove<Q: StrLike + ?Sized>(&mut self, k: &Q) -> (r: Option<V>) requires old(self).wf()
         ensures final(self).wf(), final(self).map() == old(self).map().remove(k.chars()),
-            final(self).keys() == old(self).keys().filter(|x: Seq<char>| x != k.chars()) { unimplemented!() }
+            final(self).keys() == keys_without(old(self).keys(), k.chars()) { unimplemented!() }
 }
 pub open spec fn smap_wf<V>(m: SMap<V>) -> bool { m.wf() }
+// the key list after `shift_remove`: the same keys in the same order without k
+pub open spec fn key_differs(k: Seq<char>) -> spec_fn(Seq<char>) -> bool { |x: Seq<char>| x != k }
+pub open spec fn keys_without(keys: Seq<Seq<char>>, k: Seq<char>) -> Seq<Seq<char>> { keys.filter(key_differs(k)) }
 // ============================ end of SMap stub ============================
